@@ -206,6 +206,28 @@ def evaluate(crys, chem, sl, jn, d, inp):
         if emin < -RTOL * scaleL: bad.append(("c12-not-psd", "loss tensor has eigenvalue %.3g < 0" % emin))
     tot = sum((L for _, L in modes), np.zeros((dim,) * 4))
     err = np.abs(tot - cov).max()
+    # per-mode reference: the tensor reported with rate l must be the loss tensor of l's eigenspace,
+    #   L(l) = sum_{p : mu_p = l} F_p (x) F_p,  F_p = sum_i sqrt(rho_i) phi_p(i) P_i   (basis independent inside an eigenspace)
+    mu, vec = np.linalg.eigh(-Om)
+    live = [p for p in range(N) if mu[p] > 1e-12 * maxrate]
+    Fp = {p: np.einsum('i,i,iab->ab', np.sqrt(rho), vec[:, p], P) for p in live}
+    lv = sorted(mu[p] for p in live)
+    gaps = [(b - a) / b for a, b in zip(lv, lv[1:])]
+    ambiguous = any(1e-7 < g_ < 1e-3 for g_ in gaps)          # neither degenerate nor separated: merging is a matter of taste
+    nclusters = (1 + sum(1 for g_ in gaps if g_ >= 1e-3)) if lv else 0
+    mode_err = 0.0
+    if not ambiguous:
+        for l, L in modes:
+            ref = sum((np.einsum('ab,cd->abcd', Fp[p], Fp[p]) for p in live if abs(mu[p] - l) <= 1e-4 * abs(l)), np.zeros((dim,) * 4))
+            mode_err = max(mode_err, float(np.abs(L - ref).max()))
+        if mode_err > tol:
+            absgap = min([b - a for a, b in zip(lv, lv[1:]) if (b - a) / b >= 1e-3] + [np.inf])
+            merged = len(modes) < nclusters and err <= tol
+            key = "c12-absolute-merge" if (merged and absgap < 2e-8) else ("c12-modes-merged" if merged else "c12-mode-tensor")
+            bad.append((key, "a reported (rate, tensor) pair is not a relaxation mode: the tensor differs by %.3g (scale %.3g) from the loss tensor "
+                             "of the eigenspace of its rate; %d entries reported for %d distinct non-zero eigenvalues %s%s"
+                        % (mode_err, scaleL, len(modes), nclusters, ["%.3g" % x for x in lv][:8],
+                           " -- distinct modes closer than 1e-8 in ABSOLUTE rate were merged (sum rule still holds)" if key == "c12-absolute-merge" else "")))
     # diagnosis only: does the implementation populate the site dipoles as the property says?
     Pimpl = np.array(d.siteDipoles([np.array(x) for x in dip]))
     popbad = bool(np.abs(Pimpl - P).max() > RTOL * max(np.abs(P).max(), 1e-300))
@@ -218,8 +240,43 @@ def evaluate(crys, chem, sl, jn, d, inp):
                          "; Interstitial.siteDipoles differs from the stabiliser-averaged, symmetry-carried dipoles by %.3g"
                          % np.abs(Pimpl - P).max() if popbad else "")))
     info = dict(popbad=popbad, modes=modes, rho=rho, P=P, edges=edges, Om=Om, comps=comps, scaleL=scaleL, maxrate=maxrate, cond=cond,
-                err=err / scaleL, nz=len(nz))
+                err=err / scaleL, nz=len(nz), mode_err=mode_err / scaleL, ambiguous=ambiguous, spread=1 / cond)
     return bad, info
+
+
+def scaled_input(inp, k, how):
+    """the same network with every rate multiplied by 10^-k: through the transition prefactors, or through the transition
+    energies / kT (all barriers raised by k ln 10)"""
+    i2 = dict(inp)
+    if how == "pre": i2["preT"] = [x * 10.0 ** (-k) for x in inp["preT"]]
+    else: i2["bET"] = [x + k * math.log(10.0) for x in inp["bET"]]
+    return i2
+
+
+def scale_sweep(crys, chem, sl, jn, d, inp, base, ks):
+    """rate-scale invariance: 10^-k times the rates must give the same number of modes, the rates times 10^-k, identical loss
+    tensors and the sum rule.  Only used where the base case is clean and its modes are within 1e6 of each other (NOT the
+    regime of the known finding c12-slow-mode-dropped).  Returns list of (key, msg, input)."""
+    out = []
+    bm = sorted(base["modes"], key=lambda t: -t[0])
+    for k in ks:
+        for how in ("pre", "ene"):
+            i2 = scaled_input(inp, k, how)
+            bad, info = evaluate(crys, chem, sl, jn, d, i2)
+            for key, msg in bad:
+                out.append(("c12-scale-modes-dropped" if key in ("c12-sum-rule", "c12-slow-mode-dropped") else key,
+                            "rates x 1e-%d (via %s): %s" % (k, "transition prefactors" if how == "pre" else "barriers/kT", msg), i2))
+            if bad: continue
+            sm = sorted(info["modes"], key=lambda t: -t[0])
+            f = 10.0 ** k
+            if len(sm) != len(bm):
+                out.append(("c12-scale-mode-count", "rates x 1e-%d (via %s): %d modes reported instead of %d" % (k, how, len(sm), len(bm)), i2)); continue
+            rerr = max([abs(a[0] * f - b[0]) / b[0] for a, b in zip(sm, bm)] + [0.0])
+            terr = max([float(np.abs(a[1] - b[1]).max()) for a, b in zip(sm, bm)] + [0.0])
+            if rerr > 1e-7 or terr > max(RTOL, 200 * np.finfo(float).eps * base["cond"]) * base["scaleL"]:
+                out.append(("c12-scale-invariance", "rates x 1e-%d (via %s): rates/tensors change (relative rate error %.3g, tensor error %.3g)"
+                            % (k, how, rerr, terr), i2))
+    return out
 
 
 def random_input(nr, sl, jn, dim, spread):
@@ -234,7 +291,9 @@ def random_input(nr, sl, jn, dim, spread):
 def run(ck):
     ck.rule = ("crystal pool (named + random crystal systems, 2-D/3-D, 1-3 Wyckoff sets, up to 6 sites) x percolating cutoff x "
                "random prefactors/energies/non-symmetric dipoles; streams: normal (barrier spread <= 4 kT), stiff (<= 14 kT, "
-               "condition-scaled tolerance), extreme (one barrier 20-26 kT above the rest); every case is evaluated in numpy and, "
+               "condition-scaled tolerance), extreme (one barrier 20-26 kT above the rest), scale sweep (first data set of every network with all "
+               "rates x 1e-3..1e-15 through prefactors and through barriers/kT: same modes, scaled rates, identical tensors, sum rule); every "
+               "reported (rate, tensor) is compared with the loss tensor of the eigenspace of its rate; every case is evaluated in numpy and, "
                "for connected networks of the normal stream, by the Coq checker; distinct = distinct (crystal, cutoff, data); "
                "non-trivial = at least one relaxation mode reported or expected")
     ck.trusted += ["harness/c12.py: rate network / symmetrised matrix / populated dipoles built from the implementation's "
@@ -246,6 +305,7 @@ def run(ck):
     skipped = {"nonpercolating": 0, "construct-failed": 0, "single-site": 0}
     coq_terms, coq_meta = [], []
     nsample = 0
+    nsweep = 0
     from onsager import OnsagerCalc
     multi = ["hcp", "diamond", "polar", "polar2w", "re3", "hcp-oct-tet", "fcc-oct-tet", "bcc-tet", "honeycomb", "sq2w",
              "rect-polar2d", "oblique2d", "hcp-nonideal", "b2", "tria"]
@@ -289,6 +349,16 @@ def run(ck):
                 ck.violation(msg, {"crystal": repr(crys), "chem": chem, "cutoff": cut, "stream": stream, **inp,
                                    "rates_reported": [l for l, _ in info["modes"]],
                                    "eigenvalues_of_minus_Omega": np.linalg.eigvalsh(-info["Om"]).tolist()}, key=key)
+            if rep == 0 and not bad and info["nz"] > 0 and info["spread"] > 1e-6:
+                ks = rng.sample([3, 6, 8, 9, 12, 15], ck.n(3, 4))
+                sw = scale_sweep(crys, chem, sl, jn, d, inp, info, ks)
+                nsweep += len(ks) * 2
+                ck.case(key=(label, round(cut, 5), inp["pre"], inp["bE"], inp["bET"], "sweep", ks), nontrivial=True, kind="sweep:" + kind)
+                seen = set()
+                for key, msg, i2 in sw:
+                    if key in seen: continue          # one report per class and network
+                    seen.add(key)
+                    ck.violation(msg, {"crystal": repr(crys), "chem": chem, "cutoff": cut, "stream": "scale-sweep", **i2}, key=key)
             if stream == "normal" and len(info["comps"]) == 1 and N >= 2 and len(coq_terms) < ck.n(60, 400):
                 coq_terms.append(coq_case(N, dim, info["edges"], info["rho"], info["P"], info["modes"], info["Om"], info["scaleL"], info["maxrate"]))
                 coq_meta.append(dict(label=label, crys=repr(crys), chem=chem, cut=cut, inp=inp, kind=kind,
@@ -332,3 +402,4 @@ def run(ck):
     ck.extra["coq_checker_cases"] = len(codes)
     ck.extra["traces_validated_against_impl"] = len(codes)
     ck.extra["skipped"] = skipped
+    ck.extra["scale_sweep_evaluations"] = nsweep
